@@ -14,22 +14,26 @@ import tempfile
 from common import err_kind
 
 
-def _cfg(cstep, rfrom, steps):
-    cfg = {"runner": {"workers": 1},
-           "simulation": {"interfaces": [0.0, 1.0, 2.0], "steps": steps, "seed": 0,
-                          "shooting_moves": ["sh", "sh", "sh"], "load_dir": "load", "tis_set": {"maxlength": 100}},
+N_INTF = 5      # workers ≤ interfaces − 1: up to 4 workers
+
+
+def _cfg(cstep, rfrom, steps, workers=1):
+    cfg = {"runner": {"workers": workers},
+           "simulation": {"interfaces": [float(i) for i in range(N_INTF)], "steps": steps, "seed": 0,
+                          "shooting_moves": ["sh"] * N_INTF, "load_dir": "load", "tis_set": {"maxlength": 100}},
            "engine": {"class": "turtlemd", "engine": "turtlemd"}, "output": {"data_dir": "./", "screen": 1},
-           "current": {"cstep": cstep, "active": [0, 1, 2], "locked": [], "size": 3, "traj_num": 7, "frac": {}}}
+           "current": {"cstep": cstep, "active": list(range(N_INTF)), "locked": [], "size": N_INTF, "traj_num": 7,
+                       "frac": {}}}
     if rfrom is not None:
         cfg["current"]["restarted_from"] = rfrom
     return cfg
 
 
-def _real_setup(cstep, rfrom, steps):
+def _real_setup(cstep, rfrom, steps, workers=1):
     import tomli_w
     from infretis.setup import setup_config
     with open("restart.toml", "wb") as fh:
-        tomli_w.dump(_cfg(cstep, rfrom, steps), fh)
+        tomli_w.dump(_cfg(cstep, rfrom, steps, workers), fh)
     try:
         out = setup_config("restart.toml")
     except Exception as e:  # noqa: BLE001
@@ -39,32 +43,56 @@ def _real_setup(cstep, rfrom, steps):
     return f"continues rfrom={out['current'].get('restarted_from')}", out
 
 
+def replay_setup(ctx, r):
+    """one recorded (cstep, restarted_from, steps, workers) on the current setup_config: 1 if a larger step count is refused"""
+    tmp = tempfile.mkdtemp(prefix="vp-c17s-", dir="/var/tmp")
+    cwd = os.getcwd()
+    os.chdir(tmp)
+    try:
+        for i in range(N_INTF):
+            os.makedirs(f"load/{i}", exist_ok=True)
+            with open(f"load/{i}/traj.txt", "w") as fh:
+                fh.write("x")
+        got, _ = _real_setup(r["cstep"], r.get("restarted_from"), r["steps"], r.get("workers", 1))
+        print(f"setup_config on cstep={r['cstep']} restarted_from={r.get('restarted_from')} steps={r['steps']} "
+              f"workers={r.get('workers', 1)}: {got}")
+        return 1 if (r["steps"] > r["cstep"] and not got.startswith("continues")) else 0
+    finally:
+        os.chdir(cwd)
+        shutil.rmtree(tmp, ignore_errors=True)
+
+
 def setup_rule_grid(ctx):
     tmp = tempfile.mkdtemp(prefix="vp-c17s-", dir="/var/tmp")
     cwd = os.getcwd()
     os.chdir(tmp)
     try:
-        for i in range(3):
+        for i in range(N_INTF):
             os.makedirs(f"load/{i}", exist_ok=True)
             with open(f"load/{i}/traj.txt", "w") as fh:
                 fh.write("x")
-        cases = [(c, r, t) for c in range(0, 5) for r in [None, 0, 1, 2, 3, 4, 5] for t in range(0, 7)]
-        outs = ctx.driver([f"sched-setup {c} {'-' if r is None else r} {t}" for (c, r, t) in cases]) if ctx._driver_ok \
-            else [None] * len(cases)
-        for (c, r, t), mo in zip(cases, outs):
-            got, cfg = _real_setup(c, r, t)
+        # the whole grid incl. the worker count (the rule reads it nowhere: theorem setup_rule_ignores_workers), so
+        # that steps − cstep < workers occurs for every cstep / restarted_from
+        cases = [(c, r, t, w) for w in (1, 2, 3, 4) for c in range(0, 5) for r in [None, 0, 1, 2, 3, 4, 5]
+                 for t in range(0, 8)]
+        outs = ctx.driver([f"sched-setup {c} {'-' if r is None else r} {t} {w}" for (c, r, t, w) in cases]) \
+            if ctx._driver_ok else [None] * len(cases)
+        for (c, r, t, w), mo in zip(cases, outs):
+            got, cfg = _real_setup(c, r, t, w)
             ctx.count(1, branch=f"setup-rule:{got.split()[0]}")
-            ctx.distinct(("setup-rule", c, r, t))
+            if c < t < c + w:
+                ctx.hit("setup-rule:raise-smaller-than-workers")
+            ctx.distinct(("setup-rule", c, r, t, w))
             if mo is not None and mo != got:
-                ctx.disagree({"cstep": c, "restarted_from": r, "steps": t}, got, mo)
+                ctx.disagree({"cstep": c, "restarted_from": r, "steps": t, "workers": w}, got, mo)
             if t > c and not got.startswith("continues"):
                 ctx.fail("C17:larger-step-count-refused",
-                         f"restart.toml with cstep={c}, restarted_from={r}, steps={t}: setup_config {got}",
-                         {"cstep": c, "restarted_from": r, "steps": t})
+                         f"restart.toml with cstep={c}, restarted_from={r}, steps={t}, workers={w}: setup_config {got}",
+                         {"cstep": c, "restarted_from": r, "steps": t, "workers": w})
             if cfg is not None and (cfg["current"]["cstep"] != c or cfg["simulation"]["steps"] != t):
                 ctx.fail("C17:setup-config-changes-counters",
                          f"setup_config returned cstep={cfg['current']['cstep']} steps={cfg['simulation']['steps']} "
-                         f"for a file with cstep={c} steps={t}", {"cstep": c, "restarted_from": r, "steps": t})
+                         f"for a file with cstep={c} steps={t}", {"cstep": c, "restarted_from": r, "steps": t, "workers": w})
         # chains of restarts: the real setup_config decides each life; a life that runs ends with cstep = max(cstep,
         # steps) and rewrites the file with the restarted_from setup_config set
         rng = ctx.rng
@@ -76,13 +104,14 @@ def setup_rule_grid(ctx):
             if rng.random() < 0.5:
                 ts = sorted(ts)
                 ts = [x for t in ts for x in ([t, t] if rng.random() < 0.4 else [t])]
-            chains.append((c0, r0, ts))
+            w = rng.randint(1, 4)
+            chains.append((c0, r0, ts, w))
             lines.append(f"sched-chain {c0} {'-' if r0 is None else r0} {len(ts)} {' '.join(map(str, ts))}".rstrip())
         outs = ctx.driver(lines) if ctx._driver_ok else [None] * len(lines)
-        for (c0, r0, ts), mo in zip(chains, outs):
+        for (c0, r0, ts, w), mo in zip(chains, outs):
             c, r, moves, ran = c0, r0, 0, []
             for t in ts:
-                got, cfg = _real_setup(c, r, t)
+                got, cfg = _real_setup(c, r, t, w)
                 if cfg is None:
                     ran.append(0)
                     continue
@@ -94,9 +123,9 @@ def setup_rule_grid(ctx):
             ctx.count(1, branch="restart-chain")
             ctx.distinct(("restart-chain", c0, r0, tuple(ts)))
             if mo is not None and mo != code:
-                ctx.disagree({"cstep0": c0, "restarted_from0": r0, "steps": ts}, code, mo)
+                ctx.disagree({"cstep0": c0, "restarted_from0": r0, "steps": ts, "workers": w}, code, mo)
             if c != max([c0] + ts) and all(ran):
-                ctx.fail("C17:chain-final-cstep", f"{code}", {"cstep": c0, "restarted_from": r0, "steps": ts[0]})
+                ctx.fail("C17:chain-final-cstep", f"{code}", {"cstep": c0, "restarted_from": r0, "steps": ts[0], "workers": w})
     finally:
         os.chdir(cwd)
         shutil.rmtree(tmp, ignore_errors=True)
